@@ -81,6 +81,9 @@ CHECKS["C09"] = dict(engine="Gossip", category="model_checking", design_ref="3.4
     note="Trusted: TLC; the harness stands in for memberlist's reliable delivery (no real network); claim order = order of "
          "time.Now() reads in one process; the remote branch of routing ends at in-package fake intra-proxy streams.")
 
+# only properties whose check has been validated by the lead on the unchanged tree are claimed
+READY = ["C01", "C02", "C03", "C04", "C05", "C08", "C09", "C12", "C13", "C14", "C15", "C16"]
+
 NOT_YET = "check not built yet (work in progress; see DESIGN.md section 6 for the order of work)"
 NA = {}
 
@@ -114,7 +117,7 @@ def main():
     checks = []
     for p in props:
         pid = p["id"]
-        if pid not in CHECKS:
+        if pid not in CHECKS or pid not in READY:
             continue
         c = CHECKS[pid]
         checks.append({
@@ -130,7 +133,8 @@ def main():
         })
     engines = {}
     for pid, c in CHECKS.items():
-        engines.setdefault(c["engine"], []).append(pid)
+        if pid in READY:
+            engines.setdefault(c["engine"], []).append(pid)
     m = {
         "version": 1,
         "setup_cmd": "./setup.sh",
@@ -147,7 +151,7 @@ def main():
         "checks": checks,
         "notes": "Single entry point ./check <id> --tier quick|thorough. Known findings: KNOWN_FINDINGS.json. See DESIGN.md.",
         "not_applicable": [{"property_id": p["id"], "reason": NA.get(p["id"], NOT_YET)}
-                           for p in props if p["id"] not in CHECKS],
+                           for p in props if p["id"] not in CHECKS or p["id"] not in READY],
     }
     with open(os.path.join(ROOT, "MANIFEST.json"), "w") as f:
         json.dump(m, f, indent=1)
